@@ -283,4 +283,44 @@ def parseGo : Nat → List Tok → CDict → Option CDict
 
 def parse (ts : List Tok) : Option CDict := parseGo (2 * ts.length + 1) ts {}
 
+/-!
+## The second reader of the same text: `estruct.Representation.parse`
+
+The schema generator stores the whole entry text in the `cobol` keyword and `estruct` scans it again with its own, smaller
+pattern: `VALUE [IS] literal` (consumed, nothing captured), `[USAGE] [IS] usage-word`, `PIC|PICTURE [IS] string`; everything
+else is skipped; the last USAGE and the last PICTURE win, the default usage is DISPLAY.  Same words as above (separators
+between clauses only).
+-/
+
+structure ERep where
+  usage : String := "DISPLAY"
+  picture : Option String := none
+  deriving DecidableEq, Repr
+
+/-- one `finditer` step of `estruct.clause_pattern`: the words consumed and what they set; `none` = not modelled -/
+def estructStep : List Tok → Option ((ERep → ERep) × List Tok)
+  | .kw .value :: .kw .is :: _ :: rest => some (id, rest)
+  | .kw .value :: _ :: rest => some (id, rest)
+  | .kw .usage :: .kw .is :: .kw (.u x) :: rest => some (fun r => { r with usage := x.text }, rest)
+  | .kw .usage :: .kw (.u x) :: rest => some (fun r => { r with usage := x.text }, rest)
+  | .kw .is :: .kw (.u x) :: rest => some (fun r => { r with usage := x.text }, rest)
+  | .kw (.u x) :: rest => some (fun r => { r with usage := x.text }, rest)
+  | .kw .pic :: .kw .is :: t :: rest => some (fun r => { r with picture := some t.text }, rest)
+  | .kw .picture :: .kw .is :: t :: rest => some (fun r => { r with picture := some t.text }, rest)
+  | .kw .pic :: t :: rest => some (fun r => { r with picture := some t.text }, rest)
+  | .kw .picture :: t :: rest => some (fun r => { r with picture := some t.text }, rest)
+  | .other _ :: _ => none          -- a word with other characters in a skipped position may hide a key word
+  | _ :: rest => some (id, rest)
+  | [] => some (id, [])
+
+def estructGo : Nat → List Tok → ERep → Option ERep
+  | _, [], r => some r
+  | 0, _ :: _, _ => none
+  | fuel + 1, ts@(_ :: _), r =>
+    match estructStep ts with
+    | some (f, rest) => estructGo fuel rest (f r)
+    | none => none
+
+def estructParse (ts : List Tok) : Option ERep := estructGo ts.length ts {}
+
 end Stingray.Clause
